@@ -60,6 +60,19 @@ def answer(q):
                 key = json.dumps([t_out(x) for x in roll])
                 agg[key] = agg.get(key, 0) + c
             return {"ok": sorted([json.loads(kk), v] for kk, v in agg.items() if v > 0)}
+        if k == "rwc_peek":
+            # a consumer that stops early (peeks at the first rolls, breaks out of a loop, any(), ...)
+            p = P(*[mk_h(d) for d in q["dice"]])
+            it = iter(p.rolls_with_counts(*which_of(q["which"])))
+            got = 0
+            for _ in range(q["take"]):
+                try:
+                    next(it)
+                    got += 1
+                except StopIteration:
+                    break
+            del it
+            return {"ok": "peeked"}
         if k == "order":
             return {"ok": t_hist(mk_h(q["h"]).order_stat_for_n_at_pos(q["n"], q["pos"]))}
         if k == "order_alias":
